@@ -262,4 +262,11 @@ def unOpWords (op : Nat → Nat) (l lo len : Nat) : Nat :=
 def countSetBits (buf off len : Nat) : Nat :=
   ((iterPadded buf off len).map (fun w => popcount w 64)).sum
 
+/-- `BooleanBuffer::bitwise_bin_op_assign` (`&=`, `|=`, `^=`): in place through
+`apply_bitwise_binary_op` when the buffer is uniquely owned (the result keeps the offset
+`lo`), otherwise a fresh buffer from `from_bitwise_binary_op`.  Returns the logical bits. -/
+def bitAssign (uniq : Bool) (op : Nat → Nat → Nat) (l lo r ro len : Nat) : List Bool :=
+  if uniq then (List.range len).map (fun i => (applyBinaryOp op l lo r ro len).testBit (lo + i))
+  else (List.range len).map (fun i => (binOpWords op l lo r ro len).testBit i)
+
 end ArrowModel.C19
